@@ -102,17 +102,41 @@ async def equal_owners_case(make_owner: Callable[[], Any], get_signal: Callable[
         async for ev in stream:
             sink.append(ev)
 
+    from asphalt.core import stream_events, wait_event
+
     if get_signal(a) is get_signal(b):
         fails.append(("equal-owners", "two distinct but equal owners share one bound signal"))
-    async with get_signal(a).stream_events() as sa, get_signal(b).stream_events() as sb:
-        async with anyio.create_task_group() as tg:
-            tg.start_soon(consumer, sa, got_a)
-            tg.start_soon(consumer, sb, got_b)
-            await anyio.lowlevel.checkpoint()
-            ev = await publish(b)
-            for _ in range(4):
+    got_multi: list = []
+    waited: list = []
+
+    async def waiter() -> None:
+        waited.append(await wait_event([get_signal(a), get_signal(b)]))
+
+    # (one stream over the same-named signal of BOTH owners, opened while nobody else listens: the two bound signals are then equal
+    # field by field, yet they are two channels)
+    async with stream_events([get_signal(a), get_signal(b)]) as sm:
+        async with get_signal(a).stream_events() as sa, get_signal(b).stream_events() as sb:
+            async with anyio.create_task_group() as tg:
+                tg.start_soon(consumer, sa, got_a)
+                tg.start_soon(consumer, sb, got_b)
+                tg.start_soon(consumer, sm, got_multi)
+                tg.start_soon(waiter)
                 await anyio.lowlevel.checkpoint()
-            tg.cancel_scope.cancel()
+                await anyio.lowlevel.checkpoint()
+                ev = await publish(b)
+                for _ in range(4):
+                    await anyio.lowlevel.checkpoint()
+                n_a_before = len(got_a)
+                ev2 = await publish(a)
+                for _ in range(4):
+                    await anyio.lowlevel.checkpoint()
+                tg.cancel_scope.cancel()
+    got_a_first, got_a = got_a[:n_a_before], got_a[:n_a_before]
+    if ev is not None and ev2 is not None:
+        if [id(e) for e in got_multi] != [id(ev), id(ev2)]:
+            fails.append(("equal-owners", f"a stream over the signals of both (equal) owners received {len(got_multi)} of the 2 events, one from each owner"))
+        if len(waited) != 1 or waited[0] is not ev:
+            fails.append(("equal-owners", f"wait_event over the signals of both (equal) owners returned {waited!r}, the first event came from the second owner"))
     if ev is not None and getattr(ev, "source", None) is not b:
         fails.append(("equal-owners", f"an event published by one owner carries the other (equal) owner as source: {getattr(ev, 'source', None)!r}"))
     if got_a:
